@@ -14,7 +14,7 @@ def initCtx (opt : Opt) : Res Ctx := do
     { parent := none, prevSibling := none, nextSubtree := none, lastChild := none,
       kind := .root, range := if opt.positions then (0, txt.length) else (0, 0) }
   let ns ← ({} : Namespaces).pushNs (some ⟨0, Lit.xml⟩) (.borrowed ⟨0, nsXmlUri⟩)
-  pure { opt := opt, doc := { nodes := #[root], ns := ns } }
+  pure { nodesLimit := opt.nodesLimit, positions := opt.positions, doc := { nodes := #[root], ns := ns } }
 
 /-- `doc.root().children().any(|n| n.is_element())` -/
 def rootHasElement (d : Doc) : Res Bool := do
